@@ -378,7 +378,24 @@ class Explorer:
             return C(c["bits"], c["ty"])
         if c.get("ty") == "()":
             return UNIT()
-        return SYM(("const", c.get("s", "?")))
+        # a named constant of the crate: the value its initialiser evaluates to (e.g. `const N: usize = size_of::<Buffer>()`)
+        nm = c.get("s", "?")
+        g = self.F.fns.get(nm)
+        if g is not None and g.get("kind") in ("Const", "AssocConst"):
+            cache = self.__dict__.setdefault("_const_cache", {})
+            if nm not in cache:
+                cache[nm] = None          # recursion guard
+                try:
+                    sub = Explorer(self.F, inline_pred=self.inline_pred)
+                    sub.interned, sub.interned_rev = self.interned, self.interned_rev
+                    rets = [p_.ret for p_ in sub.run(nm) if p_.kind == "return"]
+                    if len(rets) == 1 and rets[0] is not None and rets[0][0] in ("c", "sym", "agg", "arr"):
+                        cache[nm] = rets[0]
+                except Exception:
+                    cache[nm] = None
+            if cache.get(nm) is not None:
+                return cache[nm]
+        return SYM(("const", nm))
 
     def operand_ty(self, fn, op):
         pl = op.get("copy") or op.get("move")
@@ -1702,6 +1719,58 @@ class Explorer:
                 self.finish_path(st, None, "diverge")
                 return "stop"
             return ("fork", alts)
+        # ---- split_at_checked: Some((&x[..n], &x[n..])) exactly when n <= len
+        if p == "std::slice::<impl [T]>::split_at_checked" and len(args) == 2:
+            base, n_ = args[0], args[1]
+            ln = SYM(self.cap(("len", base)))
+            INDEX = "std::slice::index::<impl std::ops::Index<I> for [T]>::index"
+            OPT = "std::option::Option"
+            cond = self.binop(st, "Lt", ln, n_)           # len < n: None
+            left = SYM(self.cap(("call", INDEX, (base, AGG("std::ops::RangeTo", "RangeTo", (n_,))))))
+            right = SYM(self.cap(("call", INDEX, (base, AGG("std::ops::RangeFrom", "RangeFrom", (n_,))))))
+            alts = []
+            for truth, val in ((False, AGG(OPT, "Some", (("tup", (left, right)),))), (True, AGG(OPT, "None"))):
+                s2 = st.clone()
+                r = self.eval_bool(s2, cond)
+                if isinstance(r, bool):
+                    if r != truth:
+                        continue
+                elif not self.assume_bool(s2, r, truth):
+                    continue
+                k2 = self.clone_stack(stack)
+                self.write_place(s2, k2[-1], dest, val, site)
+                if target is None:
+                    continue
+                k2[-1].bb = target
+                alts.append((s2, k2))
+            if not alts:
+                self.finish_path(st, None, "diverge")
+                return "stop"
+            return ("fork", alts)
+        # ---- Option::ok_or: Some(v) -> Ok(v), None -> Err(e)
+        if p == "std::option::Option::<T>::ok_or" and len(args) == 2:
+            v = args[0]
+            RES = "std::result::Result"
+            if v[0] == "agg":
+                return ret(AGG(RES, "Ok", (v[3][0],)) if v[2] == "Some" else AGG(RES, "Err", (args[1],)))
+            if v[0] == "sym":
+                dt = ("discr", v[1], "std::option::Option")
+                alts = []
+                for variant in ("Some", "None"):
+                    s2 = st.clone()
+                    if not self.constrain(s2, dt, "eq", self.variant_discr("std::option::Option", variant)):
+                        continue
+                    k2 = self.clone_stack(stack)
+                    val = AGG(RES, "Ok", (SYM(self.cap(("field", v[1], 0))),)) if variant == "Some" else AGG(RES, "Err", (args[1],))
+                    self.write_place(s2, k2[-1], dest, val, site)
+                    if target is None:
+                        continue
+                    k2[-1].bb = target
+                    alts.append((s2, k2))
+                if not alts:
+                    self.finish_path(st, None, "diverge")
+                    return "stop"
+                return ("fork", alts)
         # ---- split_first: Some((&x[0], &x[1..])) exactly when the slice is not empty
         if p == "std::slice::<impl [T]>::split_first" and len(args) == 1:
             base = args[0]
